@@ -2,6 +2,7 @@ package main
 
 import (
 	"encoding/json"
+	"errors"
 	"fmt"
 	"io/fs"
 	"os"
@@ -484,8 +485,10 @@ func treeLabels(tree []Entry) []string {
 					depth++
 				}
 			}
-		} else if path.Clean(t) != t {
-			ls = append(ls, "unclean-abs-target")
+		}
+		if path.Clean(t) != t {
+			// PrefixFS.Readlink returns the cleaned text: the copy and the restored link carry it
+			ls = append(ls, "unclean-link-target")
 		}
 		abs = path.Clean(abs)
 		for _, anc := range chainOf(abs) {
@@ -495,6 +498,30 @@ func treeLabels(tree []Entry) []string {
 		}
 		if strings.Contains(t, "..") && strings.HasPrefix(t, "/") {
 			ls = append(ls, "link-topology")
+		}
+		// a ".." inside the target text that follows a component which is itself a symlink: the OS
+		// applies it at the link's target, Readlink/Join clean the text lexically
+		{
+			cur := path.Dir(lp)
+			if strings.HasPrefix(t, "/") {
+				cur = "/"
+			}
+			crossed := false
+			for _, cmp := range strings.Split(t, "/") {
+				switch cmp {
+				case "", ".":
+				case "..":
+					if crossed {
+						ls = append(ls, "link-topology")
+					}
+					cur = path.Dir(cur)
+				default:
+					cur = path.Join(cur, cmp)
+					if _, isLink := links[cur]; isLink {
+						crossed = true
+					}
+				}
+			}
 		}
 		// a relative target whose ".." would cross a symlinked parent
 		for _, anc := range chainOf(path.Dir(lp)) {
@@ -506,7 +533,7 @@ func treeLabels(tree []Entry) []string {
 	return ls
 }
 
-var labelPriority = []string{"relative-name", "through-final-symlink", "rename-nonempty-dir", "link-over-tracked", "dangling-link-parent", "link-topology", "escaping-link", "unclean-abs-target", "rename-onto-dir", "new-link-topology"}
+var labelPriority = []string{"relative-name", "through-final-symlink", "rename-nonempty-dir", "link-over-tracked", "dangling-link-parent", "link-topology", "escaping-link", "unclean-link-target", "rename-onto-dir", "new-link-topology"}
 
 func knownClass(labels map[string]bool) string {
 	for _, l := range labelPriority {
@@ -664,7 +691,21 @@ func runHistCase(c *HistCase, prop string) (*caseOut, error) {
 				want16 = e.osParents(op)
 			}
 			mapBefore := e.mapFields()
+			// C03: "RemoveAll of a path that does not exist succeeds, as the FS contract says" — judged
+			// on the real tree before the call (ENOENT, or ENOTDIR: a non-directory among the parents)
+			missingForRemoveAll := false
+			if prop == "C03" && op.K == "removeall" && strings.HasPrefix(op.A[0], "/") {
+				if _, lerr := os.Lstat(e.rc.Root + e.baseSub + path.Clean(op.A[0])); lerr != nil && (errors.Is(lerr, syscall.ENOENT) || errors.Is(lerr, syscall.ENOTDIR)) {
+					missingForRemoveAll = true
+				}
+			}
 			res := execOp(e.rc, e.bfs, op)
+			if missingForRemoveAll {
+				out.count("c03.removeall-missing")
+				if res[0] != "ok" {
+					violStep("C03", fmt.Sprintf("%v: the path does not exist, RemoveAll must succeed, got %v", op, res))
+				}
+			}
 			out.count("op." + op.K + "." + res[0])
 			if prop == "C16" && want16 != "" {
 				if got := e.mutatedPath(op); got != "" && got != want16 {
